@@ -21,6 +21,7 @@ macro_rules! properties {
 }
 
 properties! {
+    "C01" => c01,
     "C03" => c03,
     "C08" => c08,
     "C11" => c11,
